@@ -1,5 +1,5 @@
 """C03 — variables and run counters end up with the values the csvpath assigns."""
-from checks import runfam, mcrun
+from checks import runfam, mcrun, repotraces
 
 PID = "C03"
 JUDGED = {"vars", "scan_count", "match_count", "final_vars", "final_match_count", "final_scan_count", "printed", "final_printed"}
@@ -7,7 +7,7 @@ JUDGED = {"vars", "scan_count", "match_count", "final_vars", "final_match_count"
 
 def main(tier):
     n = 2000 if tier == "quick" else 20000
-    return runfam.run(PID, tier, groups=("core", "stateful", "print"), judged=JUDGED, ncases=n, seed_salt=7919, pre=lambda rep: mcrun.run_pool(rep, tier, {"vars", "matchCount", "scanCount", "printed"}, PID))
+    return runfam.run(PID, tier, groups=("core", "stateful", "print"), judged=JUDGED, ncases=n, seed_salt=7919, pre=lambda rep: (mcrun.run_pool(rep, tier, {"vars", "matchCount", "scanCount", "printed"}, PID), repotraces.run(rep, tier, JUDGED, PID)))
 
 
 def replay(path):
